@@ -57,6 +57,8 @@ let value_of_text (s : string) : pg_val =
   let pos = ref 0 in
   parse_value toks pos
 
+(* QPDF_Dictionary unparse leaves out keys whose value is null (directly or through a reference) *)
+let cur_store : pg_store ref = ref []
 let rec unparse (b : Buffer.t) (v : pg_val) : unit =
   match v with
   | PvNull -> Buffer.add_string b "null"
@@ -66,8 +68,9 @@ let rec unparse (b : Buffer.t) (v : pg_val) : unit =
   | PvArr l -> Buffer.add_string b "[ "; List.iter (fun x -> unparse b x; Buffer.add_char b ' ') l; Buffer.add_char b ']'
   | PvDict d ->
     Buffer.add_string b "<< ";
-    List.iter (fun (k, x) -> Buffer.add_char b '/'; Buffer.add_string b (string_of_key k); Buffer.add_char b ' ';
-                unparse b x; Buffer.add_char b ' ') d;
+    List.iter (fun (k, x) -> if not (pg_is_null !cur_store x) then begin
+                Buffer.add_char b '/'; Buffer.add_string b (string_of_key k); Buffer.add_char b ' ';
+                unparse b x; Buffer.add_char b ' ' end) d;
     Buffer.add_string b ">>"
 
 (* ---- documents ---- *)
@@ -87,7 +90,7 @@ let doc_of_text (txt : string) : pg_doc =
             let h = String.rindex rest '#' in
             let d = value_of_text (String.sub rest 1 (h - 1)) in
             let data = unhexbytes (String.sub rest (h + 1) (String.length rest - h - 1)) in
-            match d with PvDict dd -> PcStream (dd, data) | _ -> failwith "stream dict"
+            match d with PvDict dd -> PcStream (dd, data, N0) | _ -> failwith "stream dict"
           end else PcObj (value_of_text rest) in
         cells := (n_of_int id, cell) :: !cells
       end
@@ -100,6 +103,7 @@ let templates : (string, pg_doc) Hashtbl.t = Hashtbl.create 16
 
 let dump (p : pg_doc) : string =
   let s = p.pd_store in
+  cur_store := s;
   let mx = List.fold_left (fun m (i, _) -> max m (int_of_n i)) 0 s in
   let arr = Array.make (mx + 1) None in
   (* first binding wins (pg_lookup semantics) *)
@@ -110,14 +114,15 @@ let dump (p : pg_doc) : string =
     (match arr.(i) with
      | None -> Buffer.add_string b "null"
      | Some (PcObj v) -> unparse b v
-     | Some (PcStream (d, data)) -> Buffer.add_char b 'S'; unparse b (PvDict d); Buffer.add_char b '#'; Buffer.add_string b (hexbytes data));
+     | Some (PcStream (d, data, _)) -> Buffer.add_char b 'S'; unparse b (PvDict d); Buffer.add_char b '#';
+       if pg_stream_readable s (n_of_int i) then Buffer.add_string b (hexbytes data) else Buffer.add_char b '!');
     Buffer.add_char b '\n'
   done;
   Buffer.contents b
 
 let fnv (s : string) : int =
   let mask = (1 lsl 62) - 1 in
-  let h = ref 860922984064492325 in
+  let h = ref 1469598103934665603 in
   String.iter (fun c -> h := ((!h lxor (Char.code c)) * 1099511628211) land mask) s;
   !h
 
@@ -206,13 +211,13 @@ let () =
            else " h=" ^ string_of_int (fnv da) ^ "/" ^ string_of_int (fnv db) in
          let observe res =
            Buffer.add_string out ("r=" ^ res);
-           Buffer.add_string out (state_str ());
            if obs >= 1 then begin
              let pa = pagelist w false in let pb = pagelist w true in
              Buffer.add_string out (" p=" ^ pa ^ "/" ^ pb) end;
            if obs >= 2 then begin
              let fa = findall w false in let fb = findall w true in
              Buffer.add_string out (" f=" ^ fa ^ "/" ^ fb) end;
+           Buffer.add_string out (state_str ());
            Buffer.add_char out '|' in
          observe "init";
          let opstr = match rest with o :: _ -> o | [] -> "" in
@@ -231,4 +236,23 @@ let () =
          Buffer.add_string out (state_str ());
          Buffer.contents out
        | _ -> "?no-template")
+    | _ -> "?args")
+
+(* ---- list specification ---- *)
+let () =
+  register "pgspec" (fun args -> match args with
+    | [la; lb; ops] ->
+      let zs s = List.map z_of_int (ints_of s) in
+      let sop (t : string) : pg_sop =
+        match String.split_on_char ',' t with
+        | ["i"; d; pos; m] -> SpInsert (d = "1", nat_of_int (int_of_string pos), z_of_int (int_of_string m))
+        | ["r"; d; pos] -> SpRemove (d = "1", nat_of_int (int_of_string pos))
+        | ["s"; d; pos; m] -> SpSet (d = "1", nat_of_int (int_of_string pos), z_of_int (int_of_string m))
+        | ["w"; d; i; j] -> SpSwap (d = "1", nat_of_int (int_of_string i), nat_of_int (int_of_string j))
+        | ["n"] -> SpNop
+        | ["x"] -> SpInvalid
+        | _ -> failwith "sop" in
+      let sops = if ops = "-" then [] else List.map sop (String.split_on_char ';' ops) in
+      let res = pg_spec_run (zs la, zs lb) sops in
+      String.concat "|" (List.map (fun ((a, b), raise_) -> zlist a ^ "/" ^ zlist b ^ "/" ^ (if raise_ then "1" else "0")) res)
     | _ -> "?args")
